@@ -325,6 +325,23 @@ class Engine:
             return None
         return flow.replay_block(self.f, self.IN, pos[0], self.xfer_elem, upto=eid)
 
+    def exit_states(self):
+        """Yield (block id, return node or None, S, K) for every function exit."""
+        f = self.f
+        for bid in f.rpo():
+            b = f.blocks[bid]
+            if f.exit not in b.succs or b.noret:
+                continue
+            st = flow.replay_block(f, self.IN, bid, self.xfer_elem)
+            if st is None:
+                continue
+            ret = None
+            for i in b.elems:
+                if f.exprs[i]["k"] == "ret":
+                    ret = i
+            for S, K in st:
+                yield bid, ret, S, K
+
     def outcomes(self):
         """Set of (retval, S) over all returns of the function."""
         f = self.f
@@ -417,3 +434,42 @@ def _last_member(p):
 def _mentions(p, name):
     import re
     return re.search(r"(?<![A-Za-z0-9_])%s(?![A-Za-z0-9_])" % re.escape(name), p) is not None
+
+
+class NullSpec:
+    """A rule with no state of its own: the engine then only tracks what each
+    path knows about call results and tested variables."""
+
+    def __init__(self):
+        self.memo = {}
+
+    def call(self, eng, f, eid, e, S, K):
+        return [(S, None)]
+
+    def store(self, *a):
+        return None
+
+
+def call_true_on_true_exits(ctx, f, call_id):
+    """True when on every path to an exit returning a non-zero constant the
+    result of call `call_id` is known to be non-zero (the caller tested it and
+    left on failure)."""
+    eng = Engine(ctx, NullSpec(), f, ["-"]).run()
+    seen = False
+    for bid, ret, S, K in eng.exit_states():
+        rv = None
+        if ret is not None and f.exprs[ret].get("c"):
+            rv = eng.value(f.exprs[ret]["c"][0], K)
+        if rv == 0:
+            continue
+        v = k_get(K, ("c", call_id))
+        if v is None:
+            # the call may not be on this path at all
+            pos = flow.elem_pos(f).get(call_id)
+            if pos is not None and bid in flow.reach_from(f, pos[0]):
+                return False
+            continue
+        seen = True
+        if v == 0:
+            return False
+    return seen
